@@ -112,6 +112,13 @@ def run(res, pid):
                             props_ready=ready)
     if pid in ("C01", "C12", "C11", "C04"):
         real_slice(res, pid, {"C01": "byvalue", "C12": "ghost", "C11": "state", "C04": "exc"}[pid])
+    if pid == "C01":
+        # with cache_directory a future yields the stored value of "the same call": what counts as the same call
+        import C08
+        kf, _ = C08.key_pair_fails(res.rng, 200 if res.tier == "quick" else 2000)
+        res.cov["cache_key_pair_cases"] = 200 if res.tier == "quick" else 2000
+        if kf:
+            res.violation("with a cache directory two different calls are taken for the same call", {"kind": "oracle", "case": kf[0]})
     if pid == "C03":
         import traverse
         try:
